@@ -220,3 +220,12 @@ Theorem C05_tie_function_texts :
   Gen_C05.src_parsePose = C05_GenTie.txt_parsePose.
 Proof. exact src_ties. Qed.
 Print Assumptions C05_tie_function_texts.
+Theorem C05_tie_types : Gen_C05.types_fields =
+  [ ("RGBColor", ["R"; "G"; "B"]); ("PoseLimb", ["from"; "to"]);
+    ("PoseHeaderComponentModel", ["name"; "format"; "_points"; "_limbs"; "_colors"; "points"; "limbs"; "colors"]);
+    ("PoseHeaderModel", ["version"; "width"; "height"; "depth"; "_components"; "components"; "headerLength"]);
+    ("PosePointModel", ["X"; "Y"; "Z?"; "C?"]); ("PoseBodyFramePersonModel", ["[]"]);
+    ("PoseBodyFrameModel", ["_people"; "people"]); ("PoseBodyModel", ["fps"; "_frames"; "frames"]);
+    ("PoseModel", ["header"; "body"]) ]%string.
+Proof. exact types_fields_tie. Qed.
+Print Assumptions C05_tie_types.
